@@ -2,7 +2,7 @@
 use std::ops::Index;
 use std::str::FromStr;
 
-use chemical_elements::{ChemicalElements, ElementSpecification};
+use chemical_elements::{ChemicalCompositionRef, ChemicalElements, ElementSpecification};
 
 use crate::comp::{key, Reg};
 use crate::util::guarded;
@@ -60,8 +60,21 @@ pub fn run_case(line: &str) -> String {
                 Reg::Map(c) => c.get_str(&s),
                 Reg::Enum(c) => c.get_str(&s),
             });
+            // the same string key through the borrowed view `ChemicalCompositionRef`
+            let rview = guarded(|| {
+                let rv = match &reg {
+                    Reg::Vec(c) => ChemicalCompositionRef::Vec(c),
+                    Reg::Map(c) => ChemicalCompositionRef::Map(c),
+                    Reg::Enum(c) => ChemicalCompositionRef::from(c),
+                };
+                rv[s.as_str()]
+            });
             let sh = |x: Option<i32>| x.map(|v| v.to_string()).unwrap_or("panic".into());
-            format!("{} {}", sh(sidx), sh(gets))
+            if rview == sidx {
+                format!("{} {}", sh(sidx), sh(gets))
+            } else {
+                format!("{}!ref-view={} {}", sh(sidx), sh(rview), sh(gets))
+            }
         }
         (Some("classify"), 2) => {
             let Some(c) = f[1].parse::<u32>().ok().and_then(char::from_u32) else { return "bad-args".into() };
